@@ -192,9 +192,23 @@ func runGemm(t *simrt.Tape, rc *RunCtx) *Violation {
 	rc.Instance["policy"] = cfg.Policy.String()
 	rc.Instance["gomaxprocs"] = cfg.GOMAXPROCS
 	cTest := append([]float64(nil), c0...)
-	out, v := rc.Sim(prop, t, cfg, func() { g.run(cTest) })
+	// C as it is at the moment the call returns: block workers may still be
+	// alive then (they release their slot after signalling), but they must be
+	// done with C
+	atReturn := make([]float64, len(c0))
+	out, v := rc.Sim(prop, t, cfg, func() {
+		g.run(cTest)
+		copy(atReturn, cTest)
+	})
 	if v != nil {
 		return v
+	}
+	rc.oracle("complete-at-return")
+	for i := range cTest {
+		if math.Float64bits(cTest[i]) != math.Float64bits(atReturn[i]) {
+			return &Violation{prop, "gemm/modified-after-return", fmt.Sprintf("%s %v: C[%d,%d] was %v when the call returned and %v after the remaining goroutines had finished (policy %v, GOMAXPROCS=%d, NumCPU=%d): the call returned before its workers were done",
+				kind, rc.Instance["shape"], i/g.ldc, i%g.ldc, atReturn[i], cTest[i], cfg.Policy, cfg.GOMAXPROCS, cfg.NumCPU)}
+		}
 	}
 	if g.parallel {
 		rc.probe("parallel_path", 1)
